@@ -697,7 +697,30 @@ def run_check(prop, argv):
         for l in c.lines:
             op = l.split("\t", 1)[0]
             ops_hist[op] = ops_hist.get(op, 0) + 1
+    # what the implementation answered: verdict / error kind / layer named / markers, and how long the inputs were
+    res_hist, size_hist = {}, {}
+    kind_re = re.compile(r"^(ok|err\((?:len|content)?[A-Za-z_]*|slice=ok|slice=err|panic|fault|bad-op|[a-z_]+)")
+    layer_re = re.compile(r"layer[=:] ?(\w+)")
+    for c in cases:
+        for l, o in zip(c.lines, c.impl):
+            if o is None:
+                continue
+            m = kind_re.match(o)
+            k = m.group(1) if m else o[:12]
+            ml = layer_re.search(o) if k.startswith(("err", "slice=err")) or "stop=(" in o else None
+            if ml:
+                k += "@" + ml.group(1)
+            if "stop=(" in o:
+                k = "ok+stop" + (("@" + ml.group(1)) if ml else "")
+            res_hist[k] = res_hist.get(k, 0) + 1
+            n = max((len(a) for a in l.split("\t")[1:]), default=0) // 2
+            b = 0 if n == 0 else 1 << (n.bit_length() - 1)
+            size_hist[b] = size_hist.get(b, 0) + 1
+    res_top = dict(sorted(res_hist.items(), key=lambda kv: -kv[1])[:40])
     cov = {
+        "result_histogram": res_top,
+        "result_kinds": len(res_hist),
+        "argument_size_histogram_bytes_pow2": {str(k): v for k, v in sorted(size_hist.items())},
         "obligations": pr["obligations"],
         "discharged": pr["discharged"],
         "checker_cmd": "cd /verif/lean && lake build %s epdrv && lake env lean <generated '#print axioms' file>%s" % (" ".join(theorem_modules(pid)), " && lake env leanchecker %s" % " ".join(theorem_modules(pid)) if tier == "thorough" else ""),
